@@ -149,8 +149,9 @@ class Run:
 
     # ---- correspondence ----
     def corr(self, line: str, real: str, mode: str = "exact", meta=None):
-        """mode: 'exact' = text equality; 'observable' = equality after order normalisation is what decides,
-        an order-only difference becomes a localisation note."""
+        """mode: 'exact' = text equality; 'atom-order' = the order of atoms counts, the order in which an atom's
+        bonds are stored does not; 'observable' = equality after full order normalisation is what decides.  An
+        order-only difference becomes a localisation note."""
         self.ops.append((line, real, mode, meta))
         self.stats["corr_op:" + line.split(" ", 1)[0]] += 1
         if real.startswith("ERR "):
@@ -196,6 +197,11 @@ class Run:
             model = P.canon_coords(out)
             if model == real:
                 self.stats["corr_agree"] += 1
+                continue
+            if mode == "atom-order" and P.normalise_graph_dump(model, True) == P.normalise_graph_dump(real, True):
+                self.stats["corr_agree_observable"] += 1
+                if len(self.corr_notes) < 20:
+                    self.corr_notes.append({"op": line[:300], "note": "order of an atom's bonds differs, atoms and their order equal"})
                 continue
             if mode == "observable" and P.normalise_graph_dump(model) == P.normalise_graph_dump(real):
                 self.stats["corr_agree_observable"] += 1
